@@ -49,23 +49,24 @@ ScalesDef == {[thr |-> ThrSeq[t], side |-> sd, rlen |-> RlenSeq[r],
 ScalesBelow == {sc \in ScalesDef : sc.side = "below"}
 
 \* invocation forms and setups (covering sets: every pair of values of two dimensions occurs)
+\* opt: the tool's optional flag -v / --verbose present or absent
 \* spell: how a path is written -- "plain"; through `d/..` of a real directory; through `link/..` of a
 \* symbolic link to a directory elsewhere, with a different image of the same name at the place the
 \* spelling collapses to lexically ("-decoy") or nothing there ("-empty"); through a link to the
 \* directory; a symbolic link to the file itself; a doubled slash; an inner `/./`
-FormsDef == << [addr |-> "rel",      cwd |-> "imgdir", pub |-> "rel",      spell |-> "plain"],
-               [addr |-> "abs",      cwd |-> "imgdir", pub |-> "abs",      spell |-> "plain"],
-               [addr |-> "dotslash", cwd |-> "imgdir", pub |-> "otherdir", spell |-> "plain"],
-               [addr |-> "rel",      cwd |-> "other",  pub |-> "rel",      spell |-> "plain"],
-               [addr |-> "mixed",    cwd |-> "other",  pub |-> "abs",      spell |-> "plain"],
-               [addr |-> "abs",      cwd |-> "other",  pub |-> "otherdir", spell |-> "plain"],
-               [addr |-> "rel",      cwd |-> "imgdir", pub |-> "rel",      spell |-> "dotdot-link-decoy"],
-               [addr |-> "abs",      cwd |-> "imgdir", pub |-> "abs",      spell |-> "dotdot-link-empty"],
-               [addr |-> "rel",      cwd |-> "other",  pub |-> "rel",      spell |-> "dotdot-real"],
-               [addr |-> "dotslash", cwd |-> "imgdir", pub |-> "otherdir", spell |-> "via-link"],
-               [addr |-> "mixed",    cwd |-> "other",  pub |-> "abs",      spell |-> "file-link"],
-               [addr |-> "rel",      cwd |-> "imgdir", pub |-> "otherdir", spell |-> "slashes"],
-               [addr |-> "abs",      cwd |-> "other",  pub |-> "rel",      spell |-> "inner-dot"] >>
+FormsDef == << [addr |-> "rel",      cwd |-> "imgdir", pub |-> "rel",      spell |-> "plain", opt |-> "none"],
+               [addr |-> "abs",      cwd |-> "imgdir", pub |-> "abs",      spell |-> "plain", opt |-> "-v"],
+               [addr |-> "dotslash", cwd |-> "imgdir", pub |-> "otherdir", spell |-> "plain", opt |-> "--verbose"],
+               [addr |-> "rel",      cwd |-> "other",  pub |-> "rel",      spell |-> "plain", opt |-> "-v"],
+               [addr |-> "mixed",    cwd |-> "other",  pub |-> "abs",      spell |-> "plain", opt |-> "none"],
+               [addr |-> "abs",      cwd |-> "other",  pub |-> "otherdir", spell |-> "plain", opt |-> "--verbose"],
+               [addr |-> "rel",      cwd |-> "imgdir", pub |-> "rel",      spell |-> "dotdot-link-decoy", opt |-> "-v"],
+               [addr |-> "abs",      cwd |-> "imgdir", pub |-> "abs",      spell |-> "dotdot-link-empty", opt |-> "none"],
+               [addr |-> "rel",      cwd |-> "other",  pub |-> "rel",      spell |-> "dotdot-real", opt |-> "--verbose"],
+               [addr |-> "dotslash", cwd |-> "imgdir", pub |-> "otherdir", spell |-> "via-link", opt |-> "-v"],
+               [addr |-> "mixed",    cwd |-> "other",  pub |-> "abs",      spell |-> "file-link", opt |-> "none"],
+               [addr |-> "rel",      cwd |-> "imgdir", pub |-> "otherdir", spell |-> "slashes", opt |-> "--verbose"],
+               [addr |-> "abs",      cwd |-> "other",  pub |-> "rel",      spell |-> "inner-dot", opt |-> "-v"] >>
 AltFormDef == <<5, 4, 6, 2, 1, 3, 11, 12, 13, 7, 8, 9, 10>>
 SizeSeq == <<"small", "page_multiple", "zone_multiple", "one_below", "one_above">>
 DirSeq  == <<"flat", "samename", "mixed", "blanks">>
@@ -79,6 +80,7 @@ SetupsQuick     == {[size |-> SizeSeq[((j - 1) % 5) + 1], dirs |-> DirSeq[((j - 
                      form |-> j] : j \in 1..13}
 AuthSetupsQuick == {[size |-> SizeSeq[((j - 1) % 5) + 1], dirs |-> DirSeq[(j % 4) + 1], form |-> j] :
                       j \in {1, 3, 5} \cup (7..13)}
+QuietSetups   == {s \in SetupsDef : s.form \in {1, 5}}      \* closed under AltForm, no optional flag
 PlainSetups   == {s \in SetupsDef : s.form <= 6}
 FlatSetups    == {s \in SetupsDef : s.dirs \in {"flat", "blanks"}}
 
